@@ -71,8 +71,8 @@ class Stub:
     def __repr__(self):
         return "<%s>" % self.name
 HIERARCHY = {"ValueError": {"ValueError"}, "TypeError": {"TypeError"}, "IndexError": {"IndexError"},
-             "Exception": {"ValueError", "TypeError", "IndexError", "KeyError", "AttributeError", "Exception", "OverflowError", "ZeroDivisionError"},
-             "OverflowError": {"OverflowError"}, "ZeroDivisionError": {"ZeroDivisionError"}, "KeyError": {"KeyError"}, "AttributeError": {"AttributeError"}}
+             "Exception": {"ValueError", "TypeError", "IndexError", "KeyError", "AttributeError", "Exception", "OverflowError", "ZeroDivisionError", "re.error"},
+             "OverflowError": {"OverflowError"}, "ZeroDivisionError": {"ZeroDivisionError"}, "re.error": {"re.error"}, "KeyError": {"KeyError"}, "AttributeError": {"AttributeError"}}
 
 
 class Machine:
@@ -219,7 +219,13 @@ class Machine:
                       ast.In: lambda a, b: a in b, ast.NotIn: lambda a, b: a not in b}.get(type(op))
                 if ok is None:
                     raise AnalysisError("string machine: comparison %s" % norm(n))
-                if not ok(left, right):
+                try:
+                    res = ok(left, right)
+                except TypeError as e:
+                    if _plain(left) and _plain(right):
+                        raise PyRaise("TypeError", str(e))
+                    raise AnalysisError("string machine: %s (%s)" % (norm(n)[:60], e))
+                if not res:
                     return False
                 left = right
             return True
@@ -408,11 +414,15 @@ class Machine:
             if isinstance(n.func.value, ast.Name) and n.func.value.id == "re" and "re" not in env:
                 args = [self.ev(a, env) for a in n.args]
                 if n.func.attr == "compile" and len(args) in (1, 2) and isinstance(args[0], str):
-                    return _re.compile(*args)
-                if n.func.attr in ("search", "match", "fullmatch") and len(args) == 2 and all(isinstance(a, str) for a in args):
-                    return getattr(_re, n.func.attr)(*args)
-                if n.func.attr == "findall" and len(args) == 2 and all(isinstance(a, str) for a in args):
-                    return _re.findall(*args)
+                    try:
+                        return _re.compile(*args)
+                    except _re.error as e:
+                        raise PyRaise("re.error", str(e))
+                if n.func.attr in ("search", "match", "fullmatch", "findall") and len(args) == 2 and all(isinstance(a, str) for a in args):
+                    try:
+                        return getattr(_re, n.func.attr)(*args)
+                    except _re.error as e:
+                        raise PyRaise("re.error", str(e))
                 if n.func.attr == "escape" and len(args) == 1 and isinstance(args[0], str):
                     return _re.escape(args[0])
                 if n.func.attr == "sub" and len(args) == 3 and all(isinstance(a, str) for a in args):
